@@ -80,6 +80,8 @@ pub const ALPHABET: &[Kind] = &[
     // names without a slash that are not bracketed pseudo-names either
     Kind { name: Some("anon_inode:[io_uring]"), perms: "rw-s", off: 0 },
     Kind { name: Some("[anon:scudo:primary]"), perms: "rw-p", off: 0 },
+    // an unlinked file whose own name already ends in " (deleted)": only ONE suffix is the kernel's
+    Kind { name: Some("/lib/libA.so (deleted) (deleted)"), perms: "r--p", off: 1 },
 ];
 
 pub fn build_lines(kinds: &[(usize, bool, u64)], base: u64) -> Vec<Line> {
